@@ -54,6 +54,14 @@ func TestWriteCorpus(t *testing.T) {
 	write("C01", "mapping-switch-while-axis-deflected", "regression: the emulated key of an axis stayed sounding when the mapping was switched to one that does not map the axis (fixed: 505f4a1)",
 		KeyCase{D: d, Steps: append(append([]Step{{T: "abs", Code: 0x10, Val: 1}}, tap(59)...), Step{T: "abs", Code: 0x10, Val: 0}, Step{T: "key", Code: 30, Val: 1}, Step{T: "key", Code: 30, Val: 0}), NoLogs: true})
 
+	// C01/C02: the same key code on two sub-handlers
+	d = simple("off")
+	d.Mappings[0].KeySubs = []string{"", "Aux"}
+	d.Mappings[0].Keys = append(d.Mappings[0].Keys, KeyDef{Sub: "Aux", Code: 30, Note: 72})
+	twin := []Step{{T: "key", Sub: "", Code: 30, Val: 1}, {T: "key", Sub: "Aux", Code: 30, Val: 1}, {T: "key", Sub: "", Code: 30, Val: 0}, {T: "key", Sub: "Aux", Code: 30, Val: 0}}
+	write("C01", "same-key-code-on-two-subhandlers", "regression: the note tracker was keyed by key code only; the first key's note was never released (fixed: c3974ad)", KeyCase{D: d, Steps: twin, NoLogs: true})
+	write("C02", "same-key-code-on-two-subhandlers", "regression: the release of one key sent the Note Off of the other sub-handler's key (fixed: c3974ad)", KeyCase{D: d, Steps: twin, NoLogs: true})
+
 	// C05: default channel 0 + panic
 	d = simple("off")
 	d.Channel = 0
